@@ -2,6 +2,9 @@ import CssVerif.Model.StrCodec
 import CssVerif.Model.StrSafe
 import CssVerif.Gen.C03Productions
 import CssVerif.Model.Tok
+import CssVerif.Model.SheetCanon
+import CssVerif.Model.SheetCanonWire
+import CssVerif.Gen.C02Margins
 open CssVerif CssVerif.Proto CssVerif.StrCodec
 
 def showOpt : Option (List Nat) → String
@@ -50,8 +53,28 @@ def kindOf (k : String) : Option TokKind :=
   | "r" => some .raw
   | _ => none
 
+/-- sheet level (structure): `canon SX` -> the tokens of `serialise s`; `reparse SX` -> `eq` when the model's parse of
+those tokens projects to `erase (prune s)` (the theorem `parse_serialise`, evaluated), `fix SX` -> `eq` when
+`canon (canon s)` renders the same tokens (the theorem `serialise_fixpoint`, evaluated) -/
+def handleSheet (op : String) (ws : List String) : String :=
+  open CssVerif.SheetCanonWire CssVerif.SheetCanon CssVerif.SheetSpec CssVerif.Struct in
+  match (parseSX ws).bind sxSheet with
+  | none => "bad-op"
+  | some s =>
+    match op with
+    | "canon" => encToks (serialise s)
+    | "reparse" =>
+      let got := jASheet false (projSheet orc CssVerif.Gen.C02.margins (parseSheet orc CssVerif.Gen.C02.margins (serialise s)))
+      let want := jASheet false (prune s).erase
+      if got == want then "eq" else "ne " ++ got ++ " " ++ want
+    | "fix" => if encToks (serialise (canon s)) == encToks (serialise s) then "eq" else "ne " ++ encToks (serialise (canon s))
+    | _ => "bad-op"
+
 def handle (line : String) : String :=
   match words line with
+  | "canon" :: ws => handleSheet "canon" ws
+  | "reparse" :: ws => handleSheet "reparse" ws
+  | "fix" :: ws => handleSheet "fix" ws
   | [op, a] =>
     match decCps a with
     | none => "bad-op"
